@@ -393,6 +393,32 @@ def f7(repo: Repo) -> RuleResult:
 # --------------------------------------------------------------------------
 
 
+def _any_guarded(fn: ast.AST, ret_node: Optional[ast.AST]) -> bool:
+    """`if any(E for x in I): return [... for x in I if E]`: the filtered list is
+    not empty on that branch."""
+    if ret_node is None:
+        return False
+    for n in ast.walk(fn):
+        if not (isinstance(n, ast.If) and isinstance(n.test, ast.Call) and isinstance(n.test.func, ast.Name) and n.test.func.id == "any" and len(n.test.args) == 1):
+            continue
+        g = n.test.args[0]
+        if not isinstance(g, (ast.GeneratorExp, ast.ListComp)) or len(g.generators) != 1:
+            continue
+        inside = any(x is ret_node for b in n.body for x in ast.walk(b))
+        if not inside:
+            continue
+        want_iter, want_if = src_of(g.generators[0].iter), src_of(g.elt).strip("()")
+        v = ret_node.value if isinstance(ret_node, ast.Return) else None
+        if isinstance(v, ast.Name):
+            for b in n.body:
+                for x in ast.walk(b):
+                    if isinstance(x, (ast.Assign, ast.AnnAssign)) and src_of(x.targets[0] if isinstance(x, ast.Assign) else x.target) == v.id and x.value is not None:
+                        v = x.value
+        if isinstance(v, ast.ListComp) and len(v.generators) == 1 and src_of(v.generators[0].iter) == want_iter and [src_of(i).strip("()") for i in v.generators[0].ifs] == [want_if]:
+            return True
+    return False
+
+
 @rule("F8", "generated Python: an enum default names a declared member; every opened suite gets a statement even for empty collections")
 def f8(repo: Repo) -> RuleResult:
     res = RuleResult("F8", floor=2)
@@ -402,19 +428,31 @@ def f8(repo: Repo) -> RuleResult:
     if fe is None:
         res.unsure("F8: PyFormatter.format_default_value_enum vanished")
     else:
-        rets = [n for n in ast.walk(fe.node) if isinstance(n, ast.Return) and n.value is not None]
-        for r in rets:
-            shape = _fstring_shape(r.value) if isinstance(r.value, ast.JoinedStr) else src_of(r.value)
+        from .rules_d3 import _ret_shapes
+
+        try:
+            shapes = _ret_shapes(repo, "PyFormatter", "impls/py/formatter.py", "format_default_value_enum", primitives=("format_enum_name", "format_enum_field_name", "format_definition_name", "format_type", "format_enum_type", "format_int_value"))
+        except Inconclusive as e:
+            shapes = []
+            res.unsure(f"F8: {e}")
+        for shape in shapes:
             res.inst(function="PyFormatter.format_default_value_enum", template=shape)
             by_member = "format_enum_field_name(" in shape
-            by_number = bool(re.search(r"\}\(\s*\d+\s*\)", shape)) or bool(re.search(r"\(\s*0\s*\)$", shape))
+            by_number = bool(re.search(r"\}\(\s*\d+\s*\)", shape)) or bool(re.search(r"\(\s*\d+\s*\)$", shape)) or bool(re.search(r"\}\(\{self\.format_int_value\(\d+\)\}\)", shape))
             if by_number and not by_member:
-                res.bad(Finding("F8", pf.rel, r.lineno, "PyFormatter.format_default_value_enum", shape, "the enum default is constructed from a number (`Enum(0)`): the compiler accepts enums without that value (only the linter warns), for which the generated module raises ValueError at import / instantiation", witness="enum Gear : uint3 { GEAR_ONE = 1 }  message M { Gear g = 1 }  ->  import of the generated module fails", tag="enum-default:by-number"))
+                res.bad(Finding("F8", pf.rel, fe.node.lineno, "PyFormatter.format_default_value_enum", shape, "the enum default is constructed from a number (`Enum(0)`): the compiler accepts enums without that value (only the linter warns), for which the generated module raises ValueError at import / instantiation", witness="enum Gear : uint3 { GEAR_ONE = 1 }  message M { Gear g = 1 }  ->  import of the generated module fails", tag="enum-default:by-number"))
             elif not by_member:
                 res.unsure(f"F8: enum default template `{shape}` is neither a member reference nor a numeric construction")
     # suites: a wrapper whose before() opens a suite and whose wrapped list can be empty
+    from .emit import block_flow, pushed
+    from .fold import by_name, lit_value
+    from .normal import V
+    from .pyflow import single_atom
+    from .rules_d3 import _atoms_deep
+
     pm = m.mod("impls/py/renderer.py")
     wrapper = m.cls("BlockWrapper", "renderer/block.py")
+    empty = by_name({}, {"nfields": 0, "fields": 0, "sorted_fields": 0, "len": 0})
     for c in pm.classes.values():
         if not m.is_subclass(c, wrapper):
             continue
@@ -422,18 +460,24 @@ def f8(repo: Repo) -> RuleResult:
         wr = c.methods.get("wraps")
         if bf is None or wr is None or bf.cls is wrapper:
             continue
-        # last line pushed by before() (directly or through a helper of the same class)
-        pushed: List[str] = []
-        for n in ast.walk(bf.node):
-            if isinstance(n, ast.Call) and isinstance(n.func, ast.Attribute) and isinstance(n.func.value, ast.Name) and n.func.value.id == "self":
-                if n.func.attr == "push" and n.args:
-                    pushed.append(_fstring_shape(n.args[0]) if isinstance(n.args[0], ast.JoinedStr) else (n.args[0].value if isinstance(n.args[0], ast.Constant) else "?"))
-                elif n.func.attr in c.methods and n.func.attr.startswith("render_"):
-                    for n2 in ast.walk(c.methods[n.func.attr].node):
-                        if isinstance(n2, ast.Call) and isinstance(n2.func, ast.Attribute) and n2.func.attr == "push" and n2.args:
-                            pushed.append(_fstring_shape(n2.args[0]) if isinstance(n2.args[0], ast.JoinedStr) else (n2.args[0].value if isinstance(n2.args[0], ast.Constant) else "?"))
-        opens = [p for p in pushed if isinstance(p, str) and p.rstrip().endswith(":")]
-        if not opens or not pushed[-1].rstrip().endswith(":"):
+        try:
+            flow = block_flow(repo, c.name, "impls/py/renderer.py", "PyFormatter", "impls/py/formatter.py", {}, keep=("format_comment", "format_docstring", "format_message_name", "format_enum_name", "format_definition_name"))
+            paths = flow.run(bf.node, {"self": V("self")})
+        except Inconclusive as e:
+            res.unsure(f"F8: {c.name}.before: {e}")
+            continue
+        open_when_empty = []
+        opens_any = None
+        for p_ in paths:
+            if p_.done == "raise":
+                continue
+            lines = [t.split("{self.formatter.format_comment(")[0].rstrip() for _, t in pushed(p_)]
+            if not lines or not lines[-1].rstrip().endswith(":"):
+                continue
+            opens_any = lines[-1]
+            if all(lit_value(k, t, empty) is not False for k, t in p_.guards):
+                open_when_empty.append(lines[-1])
+        if opens_any is None:
             continue
         # wrapped class
         wrapped = None
@@ -442,21 +486,27 @@ def f8(repo: Repo) -> RuleResult:
                 wrapped = pm.classes.get(n.value.func.id)
         if wrapped is None:
             continue
-        bl = wrapped.methods.get("blocks")
-        can_be_empty = False
-        has_fallback = False
-        if bl is not None:
-            t = src_of(bl.node)
-            can_be_empty = bool(re.search(r"for \w+ in self\.d\.(fields|sorted_fields)\(\)", t))
-            has_fallback = "Pass" in t or "'pass'" in t or bool(re.search(r"\.append\(\s*Block\w+\(", t)) or "BlockMessageSize" in t
-            # a composition of several fixed blocks is never empty
-            if re.search(r"return \[\s*Block\w+\(", t) and not can_be_empty:
-                continue
-        res.inst(wrapper=c.name, opens=opens[-1], wrapped=wrapped.name, can_be_empty=can_be_empty, has_fallback=has_fallback)
-        if can_be_empty and not has_fallback:
-            # does before()/after() itself add a statement when the collection is empty?
-            scan = [bf.node] + [f2.node for nm, f2 in c.methods.items() if nm.startswith("render_")]
-            guard = any("fields()" in src_of(n.test) or "nfields()" in src_of(n.test) for fnode in scan for n in ast.walk(fnode) if isinstance(n, ast.If))
-            if not guard:
-                res.bad(Finding("F8", pm.rel, c.node.lineno, c.name, opens[-1], f"`{opens[-1]}` opens a suite whose body is the list of {wrapped.name}; for a definition without members the body is empty and the generated module does not parse", witness="enum E : uint3 {}  ->  `class E(IntEnum):` followed by nothing: IndentationError on import", tag=f"{c.name}:empty-suite"))
+        bl = m.lookup(wrapped, "blocks")
+        nonempty = False
+        known = False
+        if bl is not None and bl.cls is not None and bl.cls.rel.endswith("impls/py/renderer.py"):
+            try:
+                bflow = block_flow(repo, wrapped.name, "impls/py/renderer.py", "PyFormatter", "impls/py/formatter.py", {})
+                bpaths = [q for q in bflow.run(bl.node, {"self": V("self")}) if q.done == "return" and q.ret is not None]
+                known = bool(bpaths)
+                nonempty = known
+                for q in bpaths:
+                    if _any_guarded(bl.node, q.ret_node):
+                        continue
+                    fixed = any(a[0] == "tuple" and len(a[1]) > 0 for a in _atoms_deep(q.ret))
+                    grown = any(e.kind == "call" and e.name in ("append", "insert", "extend") and e.recv is not None and e.recv == q.ret for e in q.effects)
+                    if not (fixed or grown):
+                        nonempty = False
+            except Inconclusive:
+                known = False
+        res.inst(wrapper=c.name, opens=opens_any, wrapped=wrapped.name, never_empty=nonempty, opens_when_empty=bool(open_when_empty))
+        if not known:
+            continue
+        if open_when_empty and not nonempty:
+            res.bad(Finding("F8", pm.rel, c.node.lineno, c.name, open_when_empty[-1], f"`{open_when_empty[-1]}` opens a suite whose body is the list of {wrapped.name}; for a definition without members the body is empty and the generated module does not parse", witness="enum E : uint3 {}  ->  `class E(IntEnum):` followed by nothing: IndentationError on import", tag=f"{c.name}:empty-suite"))
     return res
